@@ -131,6 +131,11 @@ def strategy(tier):
             steps = draw(st.lists(st.tuples(st.integers(0, 4), st.integers(0, 4)).map(list), min_size=2, max_size=6))
             return {"kind": "reseed", "orig": draw(seed), "table": tab, "steps": steps,
                     "updater": draw(st.sampled_from(["seeded", "simple"]))}
+        if which == 4:
+            # a deep copy of a stream (a model or a StreamInformation that is cloned) is a stream of its own
+            return {"kind": "clone", "seed": draw(seed), "pre": draw(st.lists(st.sampled_from(["f", "i", "b"]), max_size=6)),
+                    "ops": draw(st.lists(st.tuples(st.integers(0, 1), st.sampled_from(["f", "f", "i", "b", "reset"])).map(list),
+                                         min_size=2, max_size=20))}
         if which == 0:
             return {"kind": "stub", "u": draw(ustub), "ranges": draw(st.lists(rng, min_size=1, max_size=12))}
         if which == 1:
@@ -653,6 +658,49 @@ def _run_reseed(case, out):
     out.label("updater=" + case["updater"])
 
 
+def _run_clone(case, out):
+    import copy
+    from pydsol.core.streams import MersenneTwister
+
+    def draw(st_, k):
+        if k == "f":
+            return st_.next_float().hex()
+        if k == "i":
+            return st_.next_int(-7, 1000)
+        if k == "b":
+            return st_.next_bool()
+        st_.reset()
+        return "reset"
+    try:
+        orig = MersenneTwister(case["seed"])
+        pre = [draw(orig, k) for k in case["pre"]]
+        clone = copy.deepcopy(orig)
+        # references: two more streams brought to the same point, each then sees only its own operations
+        refs = []
+        for _ in range(2):
+            r = MersenneTwister(case["seed"])
+            if [draw(r, k) for k in case["pre"]] != pre:
+                out.fail("twin", "same seed, same draws, different outputs")
+                return
+            refs.append(r)
+        pair = [orig, clone]
+        for who, k in case["ops"]:
+            got = draw(pair[who], k)
+            want = draw(refs[who], k)
+            if got != want:
+                out.fail("independence:deep-copy-shares-state", {"stream": "copy" if who else "original", "op": k,
+                                                                 "got": got, "want": want})
+                return
+        if clone.seed() != orig.seed() or clone.original_seed() != orig.original_seed():
+            out.fail("independence:deep-copy-shares-state", "seed accessors differ")
+    except Exception as e:
+        out.fail("raises:clone:" + type(e).__name__, repr(e))
+        return
+    both = {w for w, _ in case["ops"]}
+    out.nontrivial = len(both) == 2 and "f" in case["pre"]
+    out.label("deep-copy")
+
+
 def run_case(case):
     out = Outcome()
     kind = case.get("kind", "prog")
@@ -669,6 +717,8 @@ def run_case(case):
         _run_info(case, out)
     elif kind == "reseed":
         _run_reseed(case, out)
+    elif kind == "clone":
+        _run_clone(case, out)
     else:
         raise ValueError("unknown case kind %r" % kind)
     return out
